@@ -221,7 +221,9 @@ PROPS = {
                      "Arca.Props.C07.dead_only_by_panic", "Arca.Props.C07.completion_needs_finished_bookkeeping",
                      "Arca.Props.C07.completion_needs_unambiguous_stage_ids"],
         "pins": RUNLOOP_PINS + RESOLVE_PINS,
-        "streams": [S_loop(), S_engine(M.mon_c07_evalfail, extra=["-evalfail"], name="engine-evalfail", n=(250, 2500), seed_off=19)],
+        "streams": [S_loop(), S_engine(M.mon_c07_evalfail, extra=["-evalfail"], name="engine-evalfail", n=(250, 2500), seed_off=19),
+                    # a failure that happens while the caller has cancelled the run still surfaces as an error
+                    S_engine(M.both(M.mon_c07_engine, M.result_shape("C07")), extra=["-cancel", "random"], name="engine-cancel", n=(60, 600), seed_off=29)],
         "rule": LOOP_RULE + "; " + ENGINE_RULE + " with expressions that fail at run time (absent optional input, index out of range, "
                 "failing conversion, division by zero); a process crash of the harness is a violation",
     },
